@@ -30,18 +30,36 @@ build_repo() {
   return 0
 }
 
+build_probe() {
+  # C19's probe library: built against the working tree's bytecode crate with the same toolchain/profile as the CLI
+  local dir="$HERE/.cache/ffi_probe"
+  mkdir -p "$dir/src"
+  sed "s#@REPO@#$VERIF_REPO#" "$HERE/ffi_probe/Cargo.toml.in" > "$dir/Cargo.toml"
+  cp "$HERE/ffi_probe/src/lib.rs" "$dir/src/lib.rs"
+  cp "$VERIF_REPO/Cargo.lock" "$dir/Cargo.lock"
+  local log="$HERE/.cache/probe.$$.log"
+  ( flock 9; cd "$dir" && RUSTFLAGS="--cfg mscript_verif" CARGO_TARGET_DIR="${MSV_TARGET}-ffi" cargo build --offline >"$log" 2>&1 ) 9>"$HERE/.cache/build.lock"
+  local rc=$?
+  if [ $rc -ne 0 ]; then echo "INFRA: build of the FFI probe failed:" >&2; tail -20 "$log" >&2; rm -f "$log"; return 2; fi
+  rm -f "$log"
+  export MSV_PROBE="${MSV_TARGET}-ffi/debug/libmsv_ffi_probe.so"
+}
+
 case "${1:-}" in
   build)
     build_repo || exit 2
+    build_probe || exit 2
     exit 0 ;;
   replay)
     build_repo || exit 2
+    if [ "$2" = "C19" ]; then build_probe || exit 2; fi
     export MSV_BIN="$MSV_TARGET/debug/mscript"
     cd "$HERE" && exec "$PY" -m msv replay "$2" "$3" ;;
   "")
     echo "usage: $0 <ID> <quick|thorough> | replay <ID> <path> | build" >&2; exit 2 ;;
   *)
     build_repo || exit 2
+    if [ "$1" = "C19" ] || [ "$1" = "c19" ]; then build_probe || exit 2; fi
     export MSV_BIN="$MSV_TARGET/debug/mscript"
     cd "$HERE" && exec "$PY" -m msv check "$1" --tier "${2:-${VERIF_TIER:-quick}}" --seed "${VERIF_SEED:-0}" ;;
 esac
